@@ -327,6 +327,17 @@ def c14(scn, obs):
                 restart_values.add(v)
         elif k == 'ret' and o['api'] == 'reset':
             c = calls.pop(o['task'], None)
+            if c is not None and o['res'] != 'ok' and o['res'] != 'CancelledError':
+                # "... or is refused; it is never half applied": a reset that raised has changed nothing of what the object displays
+                # and hands out (read by the harness client right before the call and right after its return)
+                before = next((x for x in reversed(obs[:c['i']]) if x.get('k') == 'peek'), None)
+                after = next((x for x in obs[o['i'] + 1:] if x.get('k') in ('peek', 'call')), None)
+                if before is not None and after is not None and after.get('k') == 'peek':
+                    for fld, name in (('shown_statement', 'statement'), ('shown_source', 'get_source()'), ('run_no', 'run_no')):
+                        if fld in before and fld in after and before[fld] != after[fld]:
+                            bad.append((f'reset-half-applied:refused-but-{fld.replace("shown_", "")}-changed',
+                                        f'reset({c.get("args")}) raised {o["res"]} but {name} went {before[fld]!r} -> {after[fld]!r}'))
+                            break
             if c is not None and o['res'] == 'ok':
                 a = c.get('args') or {}
                 # a reset that returned normally took FULL effect: its own re-initialisation
